@@ -339,6 +339,8 @@ class Retag:
         import inspect
 
         self._R, self._why = R, why
+        self._n = 0  # obligations that passed the filter
+        self._errors: List[str] = []  # analysis errors of sub-rules of the attached check
         # fn(rule) or fn(rule, key)
         try:
             two = len(inspect.signature(fn).parameters) >= 2
@@ -352,18 +354,32 @@ class Retag:
     def ok(self, rule, key, site, detail, nontrivial=True):
         r = self._fn2(rule, key)
         if r:
+            self._n += 1
             self._R.ok(r, key, site, detail, nontrivial)
 
     def bad(self, rule, key, site, detail, why=""):
         r = self._fn2(rule, key)
         if r:
+            self._n += 1
             self._R.bad(r, key, site, detail, self._why or why)
 
     def check(self, cond, rule, key, site, detail, why="", nontrivial=True):
         r = self._fn2(rule, key)
         if r:
+            self._n += 1
             return self._R.check(cond, r, key, site, detail, self._why or why, nontrivial)
         return cond
+
+    def run(self, fn, *args, **kw):
+        """A sub-rule of the attached check that cannot be analysed is an analysis error of the property the check belongs to
+        (where it is reported); here it only matters if it leaves the attachment empty — see Reporter.run."""
+        try:
+            return fn(*args, **kw)
+        except AnalysisError as e:
+            self._errors.append(f"{getattr(fn, '__name__', fn)}: {e}")
+        except Exception as e:  # noqa: BLE001
+            self._errors.append(f"{getattr(fn, '__name__', fn)}: internal error {type(e).__name__}: {e}")
+        return None
 
     def floor(self, rule, n):
         pass
